@@ -9,6 +9,7 @@ import (
 	"io"
 	"io/fs"
 	"os"
+	"path/filepath"
 	"strings"
 	"sync"
 	"sync/atomic"
@@ -97,6 +98,62 @@ func mutated(op, path string) {
 type File struct {
 	f    *os.File
 	path string
+	app  bool // opened with O_APPEND
+}
+
+// Page-granular writes. The kernel copies a write(2) into the page cache one page at a time and moves the
+// file size forward after each page, without excluding readers: a concurrent read(2) - and the survivor of a
+// SIGKILL, which is honoured between two pages - can see the file end at a page boundary in the middle of
+// the written buffer. With SetPageTear(true, ...) a Write whose byte range crosses a page boundary is
+// performed as one step per page, with a scheduling point in between. phantom[name] bytes are counted in
+// front of a file when locating the boundaries: the file is treated as if that many bytes of earlier records
+// preceded it, so that short histories reach the records that straddle a boundary.
+const PageSize = 4096
+
+var tear struct {
+	on      atomic.Bool
+	mu      sync.Mutex
+	phantom map[string]int64
+}
+
+func SetPageTear(on bool, phantom map[string]int64) {
+	tear.mu.Lock()
+	tear.phantom = phantom
+	tear.mu.Unlock()
+	tear.on.Store(on)
+}
+
+func (f *File) chunks(b []byte) [][]byte {
+	if !tear.on.Load() || len(b) == 0 {
+		return [][]byte{b}
+	}
+	var off int64
+	if f.app {
+		fi, err := f.f.Stat()
+		if err != nil || !fi.Mode().IsRegular() {
+			return [][]byte{b}
+		}
+		off = fi.Size()
+	} else {
+		o, err := f.f.Seek(0, io.SeekCurrent)
+		if err != nil {
+			return [][]byte{b}
+		}
+		off = o
+	}
+	tear.mu.Lock()
+	off += tear.phantom[filepath.Base(f.path)]
+	tear.mu.Unlock()
+	var out [][]byte
+	for len(b) > 0 {
+		n := int(PageSize - off%PageSize)
+		if n > len(b) {
+			n = len(b)
+		}
+		out = append(out, b[:n])
+		b, off = b[n:], off+int64(n)
+	}
+	return out
 }
 
 func wrap(f *os.File, err error, path string) (*File, error) {
@@ -137,6 +194,9 @@ func OpenFile(name string, flag int, perm FileMode) (*File, error) {
 	}
 	begin()
 	f, err := wrapPath(name)(os.OpenFile(name, flag, perm))
+	if err == nil {
+		f.app = flag&O_APPEND != 0
+	}
 	if err == nil && ((flag&O_CREATE != 0 && !existed) || flag&O_TRUNC != 0) {
 		mutated("openfile", name)
 	} else {
@@ -180,10 +240,25 @@ func (f *File) Write(b []byte) (int, error) {
 	if f.f == os.Stdout || f.f == os.Stderr {
 		return f.f.Write(b)
 	}
-	begin()
-	n, err := f.f.Write(b)
-	mutated("write", f.path)
-	return n, err
+	total := 0
+	cs := f.chunks(b)
+	for i, c := range cs {
+		op := "write"
+		if i < len(cs)-1 {
+			op = "write-partial" // the system call has not returned yet
+		}
+		if i > 0 {
+			point("write-page")
+		}
+		begin()
+		n, err := f.f.Write(c)
+		mutated(op, f.path)
+		total += n
+		if err != nil {
+			return total, err
+		}
+	}
+	return total, nil
 }
 
 func (f *File) WriteString(s string) (int, error) { return f.Write([]byte(s)) }
